@@ -90,9 +90,8 @@ func (p Polygon) Validate() error {
 				// It's ok to access the first coord (index 0), since we've
 				// already checked to ensure that no ring is empty.
 				iStart := p.rings[i].Coordinates().GetXY(0)
-				jStart := p.rings[j].Coordinates().GetXY(0)
-				nestedFwd := relatePointToRing(iStart, p.rings[j]) == interior
-				nestedRev := relatePointToRing(jStart, p.rings[i]) == interior
+				nestedFwd := ringNestedInRing(p.rings[i], p.rings[j])
+				nestedRev := ringNestedInRing(p.rings[j], p.rings[i])
 				if nestedFwd || nestedRev {
 					return violateRingNested.errAtXY(iStart)
 				}
@@ -148,6 +147,22 @@ func (p Polygon) Validate() error {
 		return violateInteriorConnected.err()
 	}
 	return nil
+}
+
+// ringNestedInRing checks if the inner ring is nested inside the outer ring.
+// The rings are allowed to touch, so the check is made using the first control
+// point of the inner ring that isn't on the boundary of the outer ring.
+func ringNestedInRing(inner, outer LineString) bool {
+	seq := inner.Coordinates()
+	for i := 0; i < seq.Length(); i++ {
+		switch relatePointToRing(seq.GetXY(i), outer) {
+		case interior:
+			return true
+		case exterior:
+			return false
+		}
+	}
+	return false
 }
 
 func validateRing(r LineString) error {
